@@ -99,6 +99,21 @@ impl<'value, T: 'value> Stream<T> {
 
 impl<'value, T: 'value + Clone + fmt::Display> Stream<T> {
     pub(crate) fn add_value(&mut self, value: T, generation: Generation) -> ExecutionResult<()> {
+        use crate::execution_step::ExecutionError;
+        use crate::UncatchableError;
+
+        // A stream holds less than STREAM_MAX_SIZE values and generations in data are compactified,
+        // so a bigger generation index can come only from corrupted data; without this check
+        // the values matrix would be resized up to 2^32 generations.
+        match generation {
+            Generation::Previous(generation_idx) | Generation::Current(generation_idx)
+                if generation_idx >= STREAM_MAX_SIZE =>
+            {
+                return Err(ExecutionError::Uncatchable(UncatchableError::StreamSizeLimitExceeded));
+            }
+            _ => {}
+        }
+
         match generation {
             Generation::Previous(previous_gen) => self.previous_values.add_value_to_generation(value, previous_gen),
             Generation::Current(current_gen) => self.current_values.add_value_to_generation(value, current_gen),
